@@ -250,6 +250,146 @@ def run_multi(ctx, model, focus):
     _flush(ctx, model, lines, pend)
 
 
+# ------------------------------------------------------------------ client request messages (C01 / C02 / C09)
+
+def _rand_tag(rng):
+    def level():
+        nm = rng.choice(["a", "Tag", "my_tag", "x" * rng.choice([1, 2, 7, 20, 39]), "A1_b"])
+        idx = [rng.choice([0, 1, 7, 255, 256, 65535, 65536, 100000]) for _ in range(rng.choice([0, 0, 1, 1, 2, 3]))]
+        return nm + ("[" + ",".join(map(str, idx)) + "]" if idx else "")
+    tag = ".".join(level() for _ in range(rng.choice([1, 1, 2, 3])))
+    if rng.random() < 0.2:
+        tag = "Program:" + rng.choice(["Main", "P2"]) + "." + tag
+    return tag
+
+
+def run_msgs(ctx, model, focus):
+    """the message-router request of every tag-service packet class == the Lean client's message (Logix/Client.lean)"""
+    from pycomm3.packets import (ReadTagRequestPacket, ReadTagFragmentedRequestPacket, WriteTagRequestPacket,
+                                 WriteTagFragmentedRequestPacket, ReadModifyWriteRequestPacket, MultiServiceRequestPacket)
+    from pycomm3.cip import DataTypes
+    rng = ctx.rng
+    lines, pend = [], []
+    types = ["SINT", "INT", "DINT", "LINT", "USINT", "UINT", "UDINT", "REAL", "LREAL", "DWORD", "BOOL"]
+    for i in range(ctx.budget(250, 3000)):
+        tag = _rand_tag(rng)
+        inst = rng.choice([0, 0, 1, 7, 300, 70000])
+        use = rng.random() < 0.6
+        typ = rng.choice(types)
+        info = atomic_info(tag, typ, inst=inst)
+        struct_h = None
+        if rng.random() < 0.25:
+            struct_h = rng.randrange(65536)
+            info = dict(info, tag_type="struct", data_type_name="UDT", data_type={"template": {"structure_handle": struct_h}, "name": "UDT"})
+        code = DataTypes[typ].code
+        n = rng.choice([1, 1, 2, 10, 255, 256, 65535])
+        off = rng.choice([0, 1, 480, 65536, 2 ** 32 - 1])
+        val = bytes(rng.getrandbits(8) for _ in range(rng.choice([0, 1, 2, 4, 9, 40])))
+        kind = rng.choice(["read", "readfrag", "write", "writefrag", "rmw", "writeseg"] if focus != "C01" else ["read", "readfrag"])
+        nm = sx.name(tag)
+        u = "T" if use else "F"
+        h = "nil" if struct_h is None else str(struct_h)
+        try:
+            if kind == "read":
+                pkt = ReadTagRequestPacket(1, tag, n, info, 0, use)
+                pkt._setup_message()
+                impl, line = pkt.tag_only_message(), "k.msg read %s %d %s %d" % (nm, inst, u, n)
+            elif kind == "readfrag":
+                pkt = ReadTagFragmentedRequestPacket(1, tag, n, info, 0, use, off)
+                impl, line = pkt.build_message()[2:], "k.msg readfrag %s %d %s %d %d" % (nm, inst, u, n, off)
+            elif kind == "write":
+                pkt = WriteTagRequestPacket(1, tag, n, info, 0, use, val)
+                pkt._setup_message()
+                impl, line = pkt.tag_only_message(), "k.msg write %s %d %s %s %d %d %s" % (nm, inst, u, h, code, n, sx.hexb(val))
+            elif kind == "writefrag":
+                pkt = WriteTagFragmentedRequestPacket(1, tag, n, info, 0, use, off, val)
+                pkt._setup_message()
+                impl, line = pkt.tag_only_message(), "k.msg writefrag %s %d %s %s %d %d %d %s" % (nm, inst, u, h, code, n, off, sx.hexb(val))
+            elif kind == "writeseg":
+                # the segment size _send_write_fragmented derives: connection size - (message - value)
+                C = rng.choice([500, 4000, 504, 200])
+                pkt = WriteTagFragmentedRequestPacket(1, tag, n, info, 0, use, 0, val)
+                pkt.build_message()
+                impl = ("%d" % (C - (len(pkt.message) - len(pkt.value)))).encode()
+                line = "k.msg writeseg %d %s %d %s %s %d" % (C, nm, inst, u, h, code)
+            else:
+                if struct_h is not None or typ in ("REAL", "LREAL", "BOOL"):
+                    continue
+                w = DataTypes[typ].size
+                ops = [(rng.randrange(8 * w), rng.random() < 0.5) for _ in range(rng.choice([1, 2, 3, 9]))]
+                pkt = ReadModifyWriteRequestPacket(1, tag, info, 0, use)
+                for k, (b, v) in enumerate(ops):
+                    pkt.set_bit(b, v, k)
+                impl = pkt.build_message()[2:]      # sent on its own: message after the sequence count
+                line = "k.msg rmw %s %d %s %d %s" % (nm, inst, u, w, " ".join("(%d %s)" % (b, "T" if v else "F") for b, v in ops))
+            if pkt.error or getattr(pkt, "_error", None):
+                impl = "ok N"
+            elif kind == "writeseg":
+                impl = "ok " + impl.decode()
+            else:
+                impl = "ok " + sx.hexb(impl)
+        except BaseException as e:  # noqa
+            impl = "err " + core.exn_class(e)
+        ctx.case("kernel-msg", (kind, tag, inst, use, typ, struct_h is not None, n))
+        lines.append(line)
+        pend.append(("kernel-msg", {"kind": kind, "tag": tag, "inst": inst, "use_ids": use, "type": typ, "struct": struct_h, "n": n, "off": off, "value": val.hex()}, impl))
+    # multi-service wrapper
+    for i in range(ctx.budget(40, 300)):
+        msgs = [bytes(rng.getrandbits(8) for _ in range(rng.choice([2, 4, 9, 30]))) for _ in range(rng.choice([1, 2, 3, 8]))]
+
+        class _R:  # the wrapper only uses tag_only_message() and request ids of its members
+            def __init__(self, m):
+                self._m = m
+                self.request_id = 0
+            def tag_only_message(self):
+                return self._m
+        try:
+            m = MultiServiceRequestPacket(1, [_R(x) for x in msgs])
+            impl = "ok " + sx.hexb(m.build_message()[2:])
+        except BaseException as e:  # noqa
+            impl = "err " + core.exn_class(e)
+        ctx.case("kernel-msg", ("multi", tuple(len(x) for x in msgs)))
+        lines.append("k.msg multi " + " ".join(sx.hexb(x) for x in msgs))
+        pend.append(("kernel-msg", {"kind": "multi", "sizes": [len(x) for x in msgs]}, impl))
+    _flush(ctx, model, lines, pend)
+
+
+def run_readreply(ctx, model, focus):
+    """parse_read_reply on elementary replies == the Lean client's parseReadReply"""
+    from pycomm3.packets.util import parse_read_reply
+    from pycomm3.cip import DataTypes, Array
+    rng = ctx.rng
+    lines, pend = [], []
+    for i in range(ctx.budget(200, 2500)):
+        typ = rng.choice(["SINT", "INT", "DINT", "LINT", "USINT", "UINT", "UDINT", "REAL", "LREAL", "DWORD", "BOOL"])
+        tc = DataTypes[typ]
+        is_arr = rng.random() < 0.6
+        n = rng.choice([1, 1, 2, 3, 17]) if is_arr else 1
+        size = tc.size * n
+        cut = rng.choice([0, 0, 0, 0, -1, 1, 5])
+        payload = bytes(rng.getrandbits(8) for _ in range(max(0, size + (cut if cut <= 0 else cut))))
+        if typ in ("REAL", "LREAL"):
+            # avoid NaN payload comparisons: use finite values
+            import struct as _s
+            fmt = "<f" if typ == "REAL" else "<d"
+            payload = b"".join(_s.pack(fmt, rng.choice([0.0, 1.5, -2.25, 1e10, 3.0])) for _ in range(n))[: max(0, size + min(cut, 0))]
+        data = _s16(tc.code) + payload
+        info = {"data_type_name": typ, "type_class": Array(rng.choice([n, n + 3, 100]), tc) if is_arr else tc}
+        try:
+            v, name = parse_read_reply(data, info, n)
+            impl = "ok " + sx.val(v)
+        except BaseException as e:  # noqa
+            impl = "err " + core.exn_class(e)
+        ctx.case("kernel-readreply", (typ, is_arr, n, cut))
+        lines.append("k.readreply %s %d %s %d" % (sx.hexb(data), tc.code, "T" if is_arr else "F", n))
+        pend.append(("kernel-readreply", {"type": typ, "array": is_arr, "n": n, "data": data.hex()}, impl))
+    _flush(ctx, model, lines, pend)
+
+
+def _s16(x):
+    return struct.pack("<H", x)
+
+
 def _flush(ctx, model, lines, pend):
     outs = model.batch(lines) if lines else []
     for (stream, case, impl), out in zip(pend, outs):
